@@ -1,5 +1,6 @@
 SPECIFICATION Spec
-CONSTANTS MaxLen = 3
+CONSTANTS NestDepth = 3
+          MaxLen = 3
           MaxFill = 2
           CoreFill = 2
           SimLens = {}
